@@ -330,7 +330,7 @@ def _trace_key(ev, why):
 
 def _traces(ctx, layouts, real):
     q = ctx.quick
-    n = 480 if q else 4000
+    n = 480 if q else 3000
     evs = record_traces(ctx.seed * 104729 + 16, n, False, layouts, real)
     evs += record_traces(ctx.seed * 104729 + 160, n // 8, True, layouts, real)
     ctx.case(None, len(evs))
